@@ -203,7 +203,7 @@ fn c06(ctx: &mut Ctx, w: &World, st: &St, t: &PTx, params: &Params, what: &dyn F
     if crate::refcbor::parse(&signed).is_err() {
         crate::engine::machinery("signed_bytes produced malformed CBOR");
     }
-    let need = ledger::min_fee(signed.len(), &t.redeemers, ref_script_total(t), &fee_params(params));
+    let need = ledger::min_fee(signed.len(), &t.redeemers, ref_script_total(t, st), &fee_params(params));
     if nb > 0 {
         ctx.hit("bootstrap-witness-needed");
     }
@@ -240,13 +240,20 @@ fn fee_on_build_only(ctx: &mut Ctx, w: &World, st: &St, hist: &[Op], params: &Pa
     if !err.contains("Fee is less than the minimum fee") {
         return;
     }
+    if let Some(req) = st.m.fee_req {
+        if fee_request_value(req).0 {
+            // a caller-fixed fee below the minimum: "used exactly or the build fails" - it failed
+            ctx.hit("exact-fee-below-minimum-build-refused");
+            return;
+        }
+    }
     ctx.hit("build_tx-refuses-own-fee");
     let tbr = &fin.tb;
     if let Ok(Ok(tx)) = crate::engine::guard(|| tbr.build_tx_unsafe()) {
         let bytes = tx.to_bytes();
         if let Ok(t) = ledger::parse_tx(&bytes) {
             if let Ok((signed, nk, nb)) = real_signed(w, st, &t) {
-                let need = ledger::min_fee(signed.len(), &t.redeemers, ref_script_total(&t), &fee_params(params));
+                let need = ledger::min_fee(signed.len(), &t.redeemers, ref_script_total(&t, st), &fee_params(params));
                 if NB::from(t.fee) < need {
                     let created: Vec<&ledger::POut> = t.outputs.iter().skip(st.m.outputs.len()).collect();
                     let class = if created.iter().any(|o| !o.value.assets.is_empty()) { "change-with-assets" } else if created.is_empty() { "no-change" } else { "pure-change" };
